@@ -10,7 +10,10 @@ import FlexModel.Net.MeshOrder
 import FlexModel.Net.MeshRing
 import FlexModel.Net.LagLemmas
 import FlexModel.Net.SnAlloc
+import FlexModel.Net.LsReply
+import FlexModel.Net.Refresh
 import Generated.NetFacts
+import Generated.Locks
 
 namespace Props.C01
 open FlexModel.Net
@@ -732,5 +735,97 @@ number (the receiver then drops the second PDU as a duplicate: seeded change C01
 theorem sn_read_outside_lock_witness :
     (SnAlloc.run false 7 [0, 0, 1, 1, 1, 0]).pc 0 = .done ∧ (SnAlloc.run false 7 [0, 0, 1, 1, 1, 0]).pc 1 = .done ∧
     (SnAlloc.run false 7 [0, 0, 1, 1, 1, 0]).ret 0 = (SnAlloc.run false 7 [0, 0, 1, 1, 1, 0]).ret 1 := by decide
+
+
+/-! ## Round 5: a lookup answered twice; two receive threads and the location table
+
+(1) The location-service retransmission timer makes the sought station answer more than once: every reply after the
+first must be silent.  (2) With several receive threads the duplicate memory of a source (its location table entry)
+must survive the `refresh_table` another thread is executing. -/
+
+/-- **Regenerated fact** (`harness/gen_net.py`): in `Router.gn_data_indicate_ls_reply` the requests re-issued by the
+flush loop are read from `_ls_packet_buffers` inside a `with self._ls_lock` block that also REMOVES the buffer
+(`pop`) - the model's reply branch (`erasePending`).  A flush that leaves the buffer in place (seeded change
+C01-m8: `list(self._ls_packet_buffers.get(...))`) re-opens this obligation. -/
+theorem ls_flush_takes_the_buffer : Generated.NetFacts.lsFlushTakesBuffer = true := by decide
+
+/-- **A second LS reply flushes nothing.**  Station `s` accepts an LS reply `p1` of station `p1.so`; then anything
+happens at `s` (receptions of any packets, requests of any kind, any number, any order: `evs`); then another LS reply
+`p2` of the same station arrives - the answer to a retransmitted LS request, a different packet with a different
+sequence number, not a duplicate.  It transmits nothing, invokes no handler and consumes no sequence number; the
+unicast requests that waited for the lookup were sent exactly once, by the first reply (`flush_spec`).  No hypothesis
+on `p2` beyond its kind and source: also a reply nobody asked for is silent. -/
+theorem second_ls_reply_flushes_nothing (w : World) (s : Station) (p1 p2 : Pkt) (evs : List SEv)
+    (hk1 : p1.kind = .lsRep s.addr) (hne : p1.so ≠ s.addr) (hd : s.seen.contains (p1.so, p1.sn) = false)
+    (hk2 : p2.kind = .lsRep s.addr) (hso : p2.so = p1.so) :
+    (receive w (evs.foldl (stepS w) (receive w s p1).1) p2).2 = [] ∧
+    (receive w (evs.foldl (stepS w) (receive w s p1).1) p2).1.delivered =
+      (evs.foldl (stepS w) (receive w s p1).1).delivered ∧
+    (receive w (evs.foldl (stepS w) (receive w s p1).1) p2).1.sn = (evs.foldl (stepS w) (receive w s p1).1).sn :=
+  second_reply_flushes_nothing w s p1 p2 evs hk1 hne hd hk2 hso
+
+/-- the lookup is over after the first reply and stays over whatever the station receives or is asked to send -/
+theorem lookup_settled_after_reply (w : World) (s : Station) (p : Pkt) (evs : List SEv)
+    (hk : p.kind = .lsRep s.addr) (hne : p.so ≠ s.addr) (hd : s.seen.contains (p.so, p.sn) = false) :
+    lookupPending (evs.foldl (stepS w) (receive w s p).1).pending p.so = none ∧
+    (evs.foldl (stepS w) (receive w s p).1).known.contains p.so = true :=
+  let h := settled_run w _ _ evs (settled_after_reply w s p hk hne hd)
+  ⟨h.2, h.1⟩
+
+/-- non-vacuity, on the mesh the driver runs (the history of seeded change C01-m8): station 1 sends two unicasts to
+station 2, which it has never heard; the LS request is retransmitted (`Mesh.retx`) before anything is delivered; then
+everything is delivered oldest first: station 2 answers BOTH LS requests, station 1 receives both replies - and
+station 2 is handed each payload exactly once, in request order. -/
+def exRetx : Mesh :=
+  (drain (ringSem exW3 8 65535) fullRange 400 0
+    (Mesh.retx 65535 fullRange
+      ([Ev.req 1 { exR (.guc 2) [1] with dport := 2001 }, Ev.req 1 { exR (.guc 2) [2] with dport := 2001 }].foldl
+        (Mesh.stepG (ringSem exW3 8 65535) fullRange) (Mesh.ofList [ex1, ex2])) 1 2)).1
+
+example : exRetx.air = [] ∧ ((exRetx.st 2).delivered.map (·.payload)) = [[1], [2]] ∧
+    -- two LS requests and two unicasts left station 1, two LS replies left station 2
+    (exRetx.st 1).sn = 4 ∧ (exRetx.st 2).sn = 2 := by decide
+
+/-- **Regenerated fact** (`harness/gen_locks.py`, `Generated/Locks.lean`, regenerated for C01 by gen_net.py):
+`LocationTable.refresh_table` is ONE `with self.loc_t_lock` section in which `loc_t` is read, filtered and re-bound
+(a read-modify-write), and the receptions create-or-fetch and update a location table entry (with its duplicate packet
+list) in one `loc_t_lock` section each.  Reading the table in one section and publishing the aged copy in another
+(seeded change C01-m7) re-opens this obligation. -/
+theorem refresh_table_is_one_section :
+    Generated.Locks.blocks .LocationTable_refresh_table =
+      [([.LocationTable_loc_t_lock], [(.LocationTable_loc_t, .rmw)])] ∧
+    Generated.Locks.shape .LocationTable_refresh_table = [([.LocationTable_loc_t_lock], [.LocationTable_loc_t])] ∧
+    ([Generated.Locks.Fn.LocationTable_new_shb_packet, .LocationTable_new_gbc_packet, .LocationTable_new_gac_packet,
+      .LocationTable_new_guc_packet, .LocationTable_new_tsb_packet, .LocationTable_new_ls_request_packet,
+      .LocationTable_new_ls_reply_packet].all (fun f =>
+        (Generated.Locks.blocks f).length == 1 &&
+        (Generated.Locks.blocks f).all (fun b => b.1 == [.LocationTable_loc_t_lock]))) = true := by decide
+
+/-- the shape of refresh_table as the model of `Net/Refresh.lean` needs it, computed from the regenerated table -/
+def refreshOneSection : Bool :=
+  decide (Generated.Locks.blocks .LocationTable_refresh_table =
+    [([.LocationTable_loc_t_lock], [(.LocationTable_loc_t, .rmw)])])
+
+/-- **Concurrent receive threads lose no location table entry.**  Any number of threads, each ageing the table
+(`refresh_table`, shape read from the source) or creating the entry of a source it hears for the first time, ANY
+schedule of their `loc_t_lock` sections, any set of expired entries: once the creating thread has finished, the entry
+of a source that has not expired is in the table - and with it the duplicate packet list that remembers the packet
+just handed up, so that a forwarder's copy of it is recognised (`receive`: `s.seen.contains (p.so, p.sn)`, a memory
+that only grows).  The station model's single, growing `seen` list is justified for concurrent receptions by this
+theorem and the per-entry sections of C15. -/
+theorem concurrent_refresh_keeps_new_entry (alive : Nat → Bool) (role : Nat → Refresh.Role) (tbl0 : List Nat)
+    (sched : List Nat) (t k : Nat) (hr : role t = .insert k)
+    (hd : (Refresh.run refreshOneSection alive role tbl0 sched).pc t = .done) (ha : alive k = true) :
+    k ∈ (Refresh.run refreshOneSection alive role tbl0 sched).tbl := by
+  have h : refreshOneSection = true := by decide
+  rw [h] at hd ⊢
+  exact (Refresh.insert_survives alive role tbl0 sched t k hr hd ha).1
+
+/-- the hypothesis is needed: with the table read in one section and the aged copy published in another, the entry
+created in between is lost although it is alive (seeded change C01-m7) -/
+theorem refresh_split_loses_entry_witness :
+    (Refresh.run false (fun _ => true) Refresh.exRole [3] [0, 1, 0]).pc 1 = .done ∧
+    Refresh.exRole 1 = .insert 5 ∧
+    5 ∉ (Refresh.run false (fun _ => true) Refresh.exRole [3] [0, 1, 0]).tbl := by decide
 
 end Props.C01
